@@ -265,7 +265,7 @@ impl Net {
         if panicked && std::env::var("VERIF_DEBUG").is_ok() { eprintln!("DBG handler panicked: {}", super::last_panic()); }
         let mut r = Reaction { panicked, ..Default::default() };
         for c in [&self.lnc, &self.fnc, &self.snc] {
-            for (p, reason) in c.take_banned() { r.bans.push((p, ban_code(&reason))); }
+            for (p, reason) in c.take_banned() { if std::env::var("VERIF_DEBUG").is_ok() { eprintln!("DBG ban {} {}", p, &reason[..reason.len().min(200)]); } r.bans.push((p, ban_code(&reason))); }
             r.disconnects.extend(c.take_disconnected());
             for (proto, p, data) in c.take_sent() { r.sent.push((p, decode(proto, &data))); }
         }
